@@ -288,10 +288,64 @@ def mkcmp(op, a, b):
         # x & mask != 0 with right shifts: normalise shifted compare against 0
         if b.is_const() and b.value() == 0 and op in ("Eq", "Ne"):
             # drop zero bits entirely: only the set of input bits matters
-            ins = tuple(sorted(set(x for x in a.b if x != 0), key=lambda t: (str(t))))
-            if all(isinstance(x, tuple) for x in ins):
-                return Cond("cmp", op, Sym("anybit" + str(list(ins))), Bits.const(0, 1))
+            ins = set(x for x in a.b if x != 0)
+            if ins and all(isinstance(x, tuple) for x in ins):
+                return Cond("cmp", op, Sym("any(" + ranges_str(ins) + ")"), Bits.const(0, 1))
     return Cond("cmp", op, a, b)
+
+
+def ranges_str(ins):
+    """compact canonical rendering of a set of (root, bit) pairs"""
+    by = {}
+    for r, j in ins:
+        by.setdefault(r, []).append(j)
+    out = []
+    for r in sorted(by):
+        js = sorted(set(by[r]))
+        parts = []
+        i = 0
+        while i < len(js):
+            k = i
+            while k + 1 < len(js) and js[k + 1] == js[k] + 1:
+                k += 1
+            parts.append("%d" % js[i] if k == i else "%d:%d" % (js[k], js[i]))
+            i = k + 1
+        out.append("%s[%s]" % (r, ",".join(reversed(parts))))
+    return ";".join(out)
+
+
+def oracle_cond(o, root):
+    """Build a Cond from the oracle DSL (see /verif/oracles/README) over wire root."""
+    if "any" in o:
+        ins = set()
+        for hi, lo in o["any"]:
+            for j in range(lo, hi + 1):
+                ins.add((root, j))
+        return Cond("cmp", "Ne", Sym("any(" + ranges_str(ins) + ")"), Bits.const(0, 1))
+    if "none" in o:
+        ins = set()
+        for hi, lo in o["none"]:
+            for j in range(lo, hi + 1):
+                ins.add((root, j))
+        return Cond("cmp", "Eq", Sym("any(" + ranges_str(ins) + ")"), Bits.const(0, 1))
+    if "cmp" in o:
+        hi, lo = o["bits"]
+        a = Bits.inp(root, lo, hi - lo + 1)
+        if "const" in o:
+            return mkcmp(o["cmp"], a, Bits.const(o["const"], max(a.w, o["const"].bit_length() or 1)))
+        return Cond("cmp", o["cmp"], a, Sym(o["sym"]))
+    if "in" in o:
+        hi, lo = o["bits"]
+        return Cond("in", Bits.inp(root, lo, hi - lo + 1), o["in"][0], o["in"][1])
+    if "or" in o:
+        return Evaluator(None).logic("or", *[oracle_cond(x, root) for x in o["or"]])
+    if "and" in o:
+        return Evaluator(None).logic("and", *[oracle_cond(x, root) for x in o["and"]])
+    if "not" in o:
+        return cnot(oracle_cond(o["not"], root))
+    if "symc" in o:
+        return Cond("sym", o["symc"])
+    raise ValueError("bad oracle cond %r" % (o,))
 
 
 # ---------------------------------------------------------------- evaluator
@@ -358,7 +412,7 @@ class Evaluator:
     def const_value(self, path, depth=0):
         c = self.f.consts.get(path)
         if c is None:
-            raise Unsupported("const " + path)
+            return Sym("const:" + path)
         if "int" in c:
             w = INT_W.get(c["ty"]["s"], 64)
             return Bits.const(c["int"], w)
@@ -480,7 +534,7 @@ class Evaluator:
         if k == "Zst":
             return Sym("fn:" + n.get("fn", "?"))
         if k == "Closure":
-            return Sym("closure:" + n["def"])
+            return ("closure", n["def"], dict(env))
         if k == "Return":
             if n.get("e") is not None:
                 return self.eval(tb, n["e"], env, depth)
@@ -814,21 +868,29 @@ class Evaluator:
             return v
         if fn.startswith("core::clone::Clone::clone") or fn.startswith("core::borrow::Borrow::borrow") or fn.startswith("core::convert::AsRef::as_ref"):
             return args[0]
-        if fn.startswith("core::option::Option::<T>::is_some") or fn.startswith("core::option::Option::<T>::is_none"):
+        if fn.startswith("core::option::Option::<T>::") and name in ("is_some", "is_none"):
             v = args[0]
             some = name == "is_some"
             if isinstance(v, Agg) and v.adt.endswith("Option"):
                 return Cond("true" if (v.var == "Some") == some else "false")
             c = Cond("sym", "isSome(%s)" % vkey(v))
             return c if some else cnot(c)
-        if fn.startswith("core::option::Option::<T>::unwrap") or fn.startswith("core::option::Option::<T>::expect") or \
-           fn.startswith("core::result::Result::<T, E>::unwrap") or fn.startswith("core::result::Result::<T, E>::expect"):
+        if (fn.startswith("core::option::Option::<T>::") or fn.startswith("core::result::Result::<T, E>::")) and name in ("unwrap", "expect"):
             v = args[0]
             if isinstance(v, Agg) and v.var in ("Some", "Ok"):
                 return v.fields.get("0", Sym("unwrap"))
             return Sym("unwrap(%s)" % vkey(v))
-        if fn.startswith("core::option::Option::<T>::as_ref") or fn.startswith("core::option::Option::<T>::as_mut"):
+        if fn.startswith("core::option::Option::<T>::") and name in ("as_ref", "as_mut"):
             return args[0]
+        if fn.startswith("core::option::Option::<T>::") and name == "is_some_and" and len(args) == 2 and isinstance(args[1], tuple) and args[1][0] == "closure":
+            v = args[0]
+            if isinstance(v, Agg) and v.var == "None":
+                return Cond("false")
+            payload = v.fields.get("0") if isinstance(v, Agg) and v.var == "Some" else Sym("payload(%s,Some)" % vkey(v))
+            body = self.call_closure(args[1], [payload], depth + 1)
+            if isinstance(v, Agg) and v.var == "Some":
+                return self.as_cond(body)
+            return self.logic("and", Cond("sym", "isSome(%s)" % vkey(v)), self.as_cond(body))
         if fn.startswith("core::slice::<impl [T]>::len"):
             v = args[0]
             if isinstance(v, Slice) and v.len is not None:
@@ -856,6 +918,17 @@ class Evaluator:
             except Unsupported:
                 pass
         return Sym("call:%s(%s)" % (res or fn, ",".join(vkey(a) for a in args)))
+
+    def call_closure(self, clo, args, depth):
+        _, path, cenv = clo
+        tb = self.tb(path)
+        if tb is None:
+            raise Unsupported("closure body " + path)
+        env = dict(cenv)
+        # params[0] is the closure environment
+        for p, a in zip(tb.params[1:], args):
+            self.bind(p.get("pat"), a, env)
+        return self.eval(tb, tb.root, env, depth)
 
     # --- condition collection over a whole body (validators)
     def collect_ifs(self, path, args, depth=0, follow=None, out=None, guard=()):
@@ -897,7 +970,7 @@ class Evaluator:
         if k == "If":
             sp = n.get("sp", {})
             mac = sp.get("mac") or []
-            if any(m.startswith("debug_assert") or m.startswith("assert") for m in mac):
+            if any(m.startswith("debug_assert") or m.startswith("assert") or "log::" in m or m.startswith("log!") for m in mac):
                 return
             ci, cn = tb.e(n["cond"])
             binds = {}
@@ -937,5 +1010,23 @@ class Evaluator:
                 env2.update(binds)
                 self._collect(tb, arm["body"], env2, depth, follow, out, guard + (ckey(c),), path)
             return
+        if k in ("Assign", "AssignOp"):
+            try:
+                lhs = self.eval(tb, n["l"], env, depth)
+                rhs = self.eval(tb, n["r"], env, depth)
+            except Unsupported:
+                lhs, rhs = Sym("?"), Sym("?")
+            sp = n.get("sp", {})
+            out.append({"assign": (n.get("op", "="), vkey(lhs)[:200], vkey(rhs)[:200]), "guard": guard,
+                        "where": "%s:%s" % (sp.get("f"), sp.get("l")), "fn": path})
+        if k == "Call" and follow and (n.get("res") or n.get("fn")) in self.f.fns and follow(n.get("res") or n.get("fn")) \
+                and (n.get("res") or n.get("fn")) != path:
+            callee = n.get("res") or n.get("fn")
+            try:
+                cargs = [self.eval(tb, a, env, depth) for a in n["args"]]
+                self.collect_ifs(callee, cargs, depth + 1, follow, out, guard)
+                return
+            except Unsupported:
+                pass
         for ch in tb.children(i):
             self._collect(tb, ch, env, depth, follow, out, guard, path)
